@@ -716,7 +716,7 @@ class World:
         self._emit_items(out, src, m, mod, items, reach, inline_prefix='')
         for rmod, text, origin in self.vc.raws:
             if rmod == mod:
-                out.w(f'\n// raw from {os.path.relpath(origin, VERIF)}\n{text}\n')
+                out.w(f'\n// raw from {os.path.relpath(origin, VERIF)}\n{self._expand_shim_blocks(text, origin)}\n')
         for pf in self.vc.protofields:
             if pf['mod'] != mod:
                 continue
@@ -733,6 +733,27 @@ class World:
                       f'pub proof fn prost_attr_{pf["name"]}_{fname}()\n    ensures {rust_str(got)}@ == {rust_str(want)}@\n'
                       f'{{ reveal_strlit({rust_str(got)}); reveal_strlit({rust_str(want)}); }}\n')
         out.w('} // verus!\n')
+
+    def _expand_shim_blocks(self, text, origin):
+        """`@shim-block <shimfile> <header text>` in raw text is replaced by the brace-balanced item of the shim file
+        that starts with that header: the spec the shim assumes is then literally the spec this world verifies against"""
+        def rep(mm):
+            sf, head = mm.group(1), mm.group(2).strip()
+            t = open(os.path.join(VERIF, 'shim', sf + '.rs')).read()
+            i = t.find(head)
+            if i < 0 or t.find(head, i + 1) >= 0:
+                raise Inconclusive(f'{origin}: shim block {head!r} not found exactly once in shim/{sf}.rs')
+            j = t.index('{', i)
+            d = 1
+            k = j + 1
+            while d:
+                d += {'{': 1, '}': -1}.get(t[k], 0)
+                k += 1
+            self.shim_discharged = getattr(self, 'shim_discharged', [])
+            self.shim_blocks = getattr(self, 'shim_blocks', [])
+            self.shim_blocks.append(f'{sf}: {head}')
+            return f'// (text of shim/{sf}.rs)\n' + t[i:k]
+        return re.sub(r'^[ \t]*@shim-block\s+(\w+)\s+(.*)$', rep, text, flags=re.M)
 
     def _in_inline_mod(self, it, items):
         s, e = it['span']
@@ -866,6 +887,10 @@ class World:
             body = body.replace('::prost::alloc::', '::std::')
             self.counters['R6'] += n6
         name = it['name']
+        if 'pubfields' in optset:
+            # visibility only: Verus treats a type with a pub(crate) field as opaque in the contracts of pub functions
+            self.counters['R1'] += body.count('pub(crate)')
+            body = body.replace('pub(crate)', 'pub')
         derives = ['#[derive(Debug)]']
         if 'structural' in optset:
             derives.append('#[derive(Structural, PartialEq, Eq)]')
@@ -965,6 +990,8 @@ class World:
             return
         head = src[it['start_no_attrs']:it['brace'][0][1]].decode()
         out.w('\n' + head + '\n')
+        for ty in it.get('types', []):
+            out.w('    ' + ty['text'] + '\n')
         for mm in it['methods']:
             self._emit_fn(out, src, m, modpath, mm, f'{self_ty}::{mm["name"]}', reach, indent='    ')
         out.w('}\n')
@@ -1418,8 +1445,12 @@ def shim_contract_text(path, fpath):
         return None, None
     rest = region[hits[0].end():]
     end = rest.find('{ unimplemented!() }')
-    if end < 0:
-        return None, None
+    nxt = re.search(r'\bfn\s+\w+', rest)
+    if end < 0 or (nxt and nxt.start() < end):
+        # a shim function with a (model) body: its contract must not contain braces; it ends at the body's `{`
+        end = rest.find('{')
+        if end < 0:
+            return None, None
     head = rest[:end]
     mr = re.search(r'(?<![.\w])requires\b', head)
     me = re.search(r'(?<![.\w])ensures\b(?!\()', head)
@@ -1447,7 +1478,7 @@ def assemble(world_name, features=(), outdir=None, force_stub=()):
     meta = {'world': world_name, 'features': sorted(features), 'fns': fmap_main, 'reach_fns': w2.fnmap,
             'degraded': w.degraded,
             'counters': counters, 'uncontracted': w.uncontracted, 'stubs': w.stubs, 'lemma_twins': w2.lemma_twins,
-            'shim_discharged': getattr(w, 'shim_discharged', []), 'registry_crates': getattr(w, 'registry_crates', {}),
+            'shim_discharged': getattr(w, 'shim_discharged', []), 'shim_blocks': getattr(w, 'shim_blocks', []), 'registry_crates': getattr(w, 'registry_crates', {}),
             'generated': {'type_urls': getattr(w, 'generated_type_urls', None), 'wire_compat': getattr(w, 'generated_wire', None), 'storage_keys': getattr(w, 'generated_storage_keys', None)},
             'unit_sha256': sha(main)}
     json.dump(meta, open(os.path.join(outdir, 'map.json'), 'w'), indent=1)
